@@ -1,6 +1,1198 @@
-//! C19 — not implemented yet.
+//! C19 — Fee forwarding charges at most the authorized fee for the authorized call only.
+//!
+//! Targets: `examples/fee-forwarder-permissionless` (eager approval, relayer collects) and
+//! `examples/fee-forwarder-permissioned` (lazy approval, forwarder collects, allow-list managed by
+//! `manager`, relayer needs the `executor` role).  Fee tokens: 2 x library `FtBase` + 1 Stellar
+//! Asset Contract.  Collaborators: two `Target` instances (append-only call log, scripted
+//! failure, optional `who.require_auth()`), a read-only `Probe`.
+//!
+//! Every forward is submitted with EXPLICIT authorization entries (never `mock_all_auths`):
+//!   user    : root  forwarder.forward(token, max, exp, target, fn, args)   [require_auth_for_args]
+//!               sub  token.approve(user, forwarder, max, exp)
+//!               sub  target.fn(args)                     (only when the target asks for the user)
+//!   relayer : root  forwarder.forward(<all nine arguments>)
+//! and the adversarial modes are derived from that tree.
+
+use crate::contracts::c19::{
+    probe::Probe,
+    target::{CallRec, Target},
+};
+use crate::contracts::ft::ft_base::FtBase;
 use crate::engine::*;
+use crate::envx::{self, call, Inv};
+use crate::examples::fee_forwarder_permissioned::contract::FeeForwarder as Permissioned;
+use crate::examples::fee_forwarder_permissionless::contract::FeeForwarder as Permissionless;
+use crate::gen::pick;
+use proptest::prelude::*;
+use serde::{Deserialize, Serialize};
+use soroban_sdk::token::StellarAssetClient;
+use soroban_sdk::xdr::ScVal;
+use soroban_sdk::{Address, Env, IntoVal, Symbol, TryFromVal, Val, Vec as SVec};
+use std::collections::BTreeSet;
+use std::panic::{catch_unwind, AssertUnwindSafe};
+use stellar_fee_abstraction::{is_allowed_fee_token, FeeAbstractionStorageKey};
+use stellar_tokens::fungible::Base;
+
+// ------------------------------------------------------------------ case data
+
+#[derive(Clone, Copy, Debug, Serialize, Deserialize, PartialEq, Eq)]
+pub enum Flavour {
+    Permissionless,
+    Permissioned,
+}
+impl Flavour {
+    fn eager(self) -> bool {
+        matches!(self, Flavour::Permissionless)
+    }
+}
+
+#[derive(Clone, Debug, Serialize, Deserialize)]
+pub enum MaxSel {
+    Abs(#[serde(with = "crate::gen::i128_str")] i128),
+    /// user's balance of the fee token + d
+    BalPlus(i8),
+}
+#[derive(Clone, Debug, Serialize, Deserialize)]
+pub enum FeeSel {
+    /// max + d
+    MaxPlus(i8),
+    Abs(#[serde(with = "crate::gen::i128_str")] i128),
+    /// max / 2
+    Half,
+    /// current allowance(user, forwarder) + d
+    AllowPlus(i8),
+}
+#[derive(Clone, Debug, Serialize, Deserialize)]
+pub enum ExpSel {
+    /// current ledger + d
+    Rel(i32),
+    Abs(u32),
+}
+/// allowance(user -> forwarder) installed by the user right before the forward
+#[derive(Clone, Debug, Serialize, Deserialize)]
+pub enum PreAllow {
+    Keep,
+    /// approve(max + d), live for 100 ledgers
+    MaxPlus(i8),
+}
+#[derive(Clone, Debug, Serialize, Deserialize)]
+pub enum UserSel {
+    User(u16),
+    /// the forwarder contract itself is named as the user (documented: InvalidUser)
+    Forwarder,
+}
+#[derive(Clone, Debug, Serialize, Deserialize)]
+pub enum RelSel {
+    /// one of the two relayers (they hold the `executor` role in the permissioned flavour)
+    Executor(u16),
+    /// an actor without any role, authorizing correctly
+    Stranger,
+}
+#[derive(Clone, Copy, Debug, Serialize, Deserialize, PartialEq, Eq)]
+pub enum TFn {
+    Ping,
+    /// requires the user's authorization inside the target
+    Guarded,
+    /// records, then always fails
+    Boom,
+    /// entry point that does not exist
+    Missing,
+}
+#[derive(Clone, Debug, Serialize, Deserialize)]
+pub struct Tgt {
+    pub second: bool,
+    pub f: TFn,
+    pub x: i16,
+    pub y: u8,
+}
+#[derive(Clone, Copy, Debug, Serialize, Deserialize, PartialEq, Eq)]
+pub enum Field {
+    Token,
+    Max,
+    Exp,
+    Target,
+    Fn,
+    Args,
+}
+impl Field {
+    fn idx(self) -> usize {
+        match self {
+            Field::Token => 0,
+            Field::Max => 1,
+            Field::Exp => 2,
+            Field::Target => 3,
+            Field::Fn => 4,
+            Field::Args => 5,
+        }
+    }
+    fn name(self) -> &'static str {
+        match self {
+            Field::Token => "token",
+            Field::Max => "max-fee",
+            Field::Exp => "expiration",
+            Field::Target => "target",
+            Field::Fn => "fn",
+            Field::Args => "args",
+        }
+    }
+}
+#[derive(Clone, Debug, Serialize, Deserialize, PartialEq, Eq)]
+pub enum FAuth {
+    Exact,
+    /// Exact plus an unrelated entry of an uninvolved actor
+    Surplus,
+    /// the user's root entry differs in one of the six authorized arguments
+    /// (variant 0/1: value changed, 2: argument omitted from the tuple)
+    TamperUser(Field, u8),
+    /// no entry of the user at all
+    DropUser,
+    /// the exact tree, but signed by the other user
+    SwapUser,
+    /// the user's entry lacks the `approve` sub-invocation
+    DropApprove,
+    /// the `approve` sub-invocation differs (0: amount+1, 1: amount-1, 2: expiration+1, 3: other spender)
+    TamperApprove(u8),
+    /// the user's entry lacks the target sub-invocation (matters for `guarded`)
+    DropTargetSub,
+    /// the target sub-invocation authorizes other arguments
+    TamperTargetSub,
+    /// no entry of the relayer
+    DropRelayer,
+    /// relayer's entry differs (0: fee+1, 1: other user, 2: other relayer argument)
+    TamperRelayer(u8),
+    /// the relayer's invocation is signed by somebody else
+    SwapRelayer,
+}
+
+#[derive(Clone, Debug, Serialize, Deserialize)]
+pub enum TokSel {
+    Any(u16),
+    /// a token the allow-list currently accepts / refuses (falls back to Any)
+    Accepted(u16),
+    Refused(u16),
+}
+
+#[derive(Clone, Debug, Serialize, Deserialize)]
+pub struct Fwd {
+    pub tok: TokSel,
+    pub user: UserSel,
+    pub relayer: RelSel,
+    pub max: MaxSel,
+    pub fee: FeeSel,
+    pub exp: ExpSel,
+    pub pre: PreAllow,
+    pub tgt: Tgt,
+    pub auth: FAuth,
+}
+
+#[derive(Clone, Debug, Serialize, Deserialize)]
+pub enum ListSel {
+    /// any of the five candidates
+    Cand(u16),
+    /// i-th current member (model order)
+    Member(u16),
+    /// i-th current non-member
+    NonMember(u16),
+    /// the token stored in enumeration slot 0 / count-1 (selector only, never asserted)
+    First,
+    Last,
+}
+
+#[derive(Clone, Debug, Serialize, Deserialize)]
+pub enum Op {
+    Forward(Fwd),
+    /// permissioned only: enable_fee_token / disable_fee_token
+    List { sel: ListSel, on: bool, by_manager: bool, with_auth: bool },
+    /// permissioned only: manager sweeps the collected fees of one token
+    Sweep { tok: u16 },
+    /// (un)script the failure flag of a target
+    Script { second: bool, fail: bool },
+    Advance { k: u32 },
+}
+
+#[derive(Clone, Debug, Serialize, Deserialize)]
+pub struct Case {
+    pub flavour: Flavour,
+    pub seq: u32,
+    /// permissioned: initial allow-list (bit i = candidate i), installed by the manager in set-up
+    pub init_list: u8,
+    pub ops: Vec<Op>,
+}
+
+// ------------------------------------------------------------------ strategies
+
+fn fwd_strategy() -> BoxedStrategy<Fwd> {
+    let user = prop_oneof![ 48 => any::<u16>().prop_map(UserSel::User), 2 => Just(UserSel::Forwarder) ];
+    let relayer = prop_oneof![ 11 => any::<u16>().prop_map(RelSel::Executor), 1 => Just(RelSel::Stranger) ];
+    let max = prop_oneof![
+        10 => (2i128..=1000).prop_map(MaxSel::Abs),
+        2 => (1i128..=2).prop_map(MaxSel::Abs),
+        2 => crate::gen::amount_any().prop_map(MaxSel::Abs),
+        3 => (-1i8..=1).prop_map(MaxSel::BalPlus),
+        1 => Just(MaxSel::Abs(0)),
+    ];
+    let fee = prop_oneof![
+        14 => Just(FeeSel::MaxPlus(0)),
+        9 => Just(FeeSel::MaxPlus(-1)),
+        3 => Just(FeeSel::MaxPlus(1)),
+        6 => Just(FeeSel::Abs(1)),
+        6 => Just(FeeSel::Half),
+        1 => Just(FeeSel::Abs(0)),
+        1 => Just(FeeSel::Abs(-1)),
+        1 => crate::gen::amount_any().prop_map(FeeSel::Abs),
+        1 => (2i8..=5).prop_map(FeeSel::MaxPlus),
+        2 => (-1i8..=1).prop_map(FeeSel::AllowPlus),
+    ];
+    let exp = prop_oneof![
+        10 => Just(ExpSel::Rel(0)),
+        24 => (1i32..=50).prop_map(ExpSel::Rel),
+        3 => Just(ExpSel::Rel(-1)),
+        1 => (-6i32..-1).prop_map(ExpSel::Rel),
+        1 => prop_oneof![Just(0u32), Just(u32::MAX), Just(1u32)].prop_map(ExpSel::Abs),
+        1 => (5000i32..100_000).prop_map(ExpSel::Rel),
+    ];
+    let pre = prop_oneof![
+        11 => Just(PreAllow::Keep),
+        3 => Just(PreAllow::MaxPlus(0)),
+        3 => (1i8..=3).prop_map(PreAllow::MaxPlus),
+        3 => (-3i8..=-1).prop_map(PreAllow::MaxPlus),
+    ];
+    let tfn = prop_oneof![ 14 => Just(TFn::Ping), 7 => Just(TFn::Guarded), 2 => Just(TFn::Boom), 1 => Just(TFn::Missing) ];
+    let tgt = (proptest::bool::weighted(0.25), tfn, -3i16..=40, 0u8..=9).prop_map(|(second, f, x, y)| Tgt { second, f, x, y });
+    let field = prop_oneof![
+        Just(Field::Token),
+        Just(Field::Max),
+        Just(Field::Exp),
+        Just(Field::Target),
+        Just(Field::Fn),
+        Just(Field::Args)
+    ];
+    let auth = prop_oneof![
+        80 => Just(FAuth::Exact),
+        3 => Just(FAuth::Surplus),
+        18 => (field, 0u8..3).prop_map(|(f, v)| FAuth::TamperUser(f, v)),
+        2 => Just(FAuth::DropUser),
+        2 => Just(FAuth::SwapUser),
+        4 => Just(FAuth::DropApprove),
+        3 => (0u8..4).prop_map(FAuth::TamperApprove),
+        3 => Just(FAuth::DropTargetSub),
+        2 => Just(FAuth::TamperTargetSub),
+        3 => Just(FAuth::DropRelayer),
+        3 => (0u8..3).prop_map(FAuth::TamperRelayer),
+        2 => Just(FAuth::SwapRelayer),
+    ];
+    let tok = prop_oneof![
+        2 => any::<u16>().prop_map(TokSel::Any),
+        8 => any::<u16>().prop_map(TokSel::Accepted),
+        1 => any::<u16>().prop_map(TokSel::Refused),
+    ];
+    (tok, user, relayer, max, fee, exp, pre, tgt, auth)
+        .prop_map(|(tok, user, relayer, max, fee, exp, pre, tgt, auth)| Fwd { tok, user, relayer, max, fee, exp, pre, tgt, auth })
+        .boxed()
+}
+
+fn op_strategy(fl: Flavour) -> BoxedStrategy<Op> {
+    let list_sel = prop_oneof![
+        3 => any::<u16>().prop_map(ListSel::Cand),
+        3 => any::<u16>().prop_map(ListSel::Member),
+        3 => any::<u16>().prop_map(ListSel::NonMember),
+        2 => Just(ListSel::First),
+        2 => Just(ListSel::Last),
+    ];
+    let list = (list_sel, any::<bool>(), proptest::bool::weighted(0.9), proptest::bool::weighted(0.9))
+        .prop_map(|(sel, on, by_manager, with_auth)| Op::List { sel, on, by_manager, with_auth });
+    let adv = prop_oneof![ 3 => 0u32..=2, 2 => 3u32..=60, 1 => Just(101u32), 1 => 4000u32..=5000 ].prop_map(|k| Op::Advance { k });
+    let script = (proptest::bool::weighted(0.3), proptest::bool::weighted(0.3)).prop_map(|(second, fail)| Op::Script { second, fail });
+    let permd = fl == Flavour::Permissioned;
+    prop_oneof![
+        60 => fwd_strategy().prop_map(Op::Forward),
+        if permd { 24 } else { 0 } => list,
+        if permd { 3 } else { 0 } => any::<u16>().prop_map(|tok| Op::Sweep { tok }),
+        2 => script,
+        8 => adv,
+    ]
+    .boxed()
+}
+
+fn case_strategy(fl: Flavour, tier: Tier) -> BoxedStrategy<Case> {
+    let max_ops = tier.pick(34usize, 50usize);
+    let init = prop_oneof![ 2 => Just(0u8), 3 => 0u8..32 ];
+    (100u32..5000, init, proptest::collection::vec(op_strategy(fl), 10..max_ops))
+        .prop_map(move |(seq, init_list, ops)| Case { flavour: fl, seq, init_list: if fl == Flavour::Permissioned { init_list } else { 0 }, ops })
+        .boxed()
+}
+fn strat_permissionless(tier: Tier) -> BoxedStrategy<Case> {
+    case_strategy(Flavour::Permissionless, tier)
+}
+fn strat_permissioned(tier: Tier) -> BoxedStrategy<Case> {
+    case_strategy(Flavour::Permissioned, tier)
+}
+
+// ------------------------------------------------------------------ world
+
+const N_TOK: usize = 3;
+const N_CAND: usize = 5;
+// holder indices
+const H_USER0: usize = 0;
+const H_REL0: usize = 2;
+const H_STRANGER: usize = 4;
+const H_FWD: usize = 5;
+// pair indices: (user i -> forwarder) = i
+
+type Log = Vec<(String, Vec<ScVal>)>;
+
+#[derive(Clone, Debug, PartialEq)]
+struct Dump {
+    /// bal[token][holder]
+    bal: Vec<Vec<i128>>,
+    /// alw[token][pair]
+    alw: Vec<Vec<i128>>,
+    logs: [Log; 2],
+}
+
+struct World {
+    e: Env,
+    fl: Flavour,
+    fwd: Address,
+    toks: Vec<Address>,
+    users: Vec<Address>,
+    relayers: Vec<Address>,
+    stranger: Address,
+    manager: Address,
+    sink: Address,
+    targets: Vec<Address>,
+    probe: Address,
+    /// allow-list candidates: the three tokens + two plain addresses
+    cands: Vec<Address>,
+    holders: Vec<Address>,
+    pairs: Vec<(Address, Address)>,
+}
+
+fn setup_err(what: &str, er: impl std::fmt::Debug) -> Violation {
+    violation("C19/setup/failed", format!("{what}: {er:?}"))
+}
+
+impl World {
+    fn setup(case: &Case) -> Result<World, Violation> {
+        let e = envx::new_env(case.seq, envx::BIG_TTL);
+        let admin = envx::actor(&e);
+        let manager = envx::actor(&e);
+        let users = envx::actors(&e, 2);
+        let relayers = envx::actors(&e, 2);
+        let stranger = envx::actor(&e);
+        let sink = envx::actor(&e);
+        let dummies = envx::actors(&e, 2);
+        let fwd = match case.flavour {
+            Flavour::Permissionless => e.register(Permissionless, ()),
+            Flavour::Permissioned => {
+                let mut ex = SVec::new(&e);
+                for r in &relayers {
+                    ex.push_back(r.clone());
+                }
+                e.register(Permissioned, (admin.clone(), manager.clone(), ex))
+            }
+        };
+        let t0 = e.register(FtBase, (admin.clone(),));
+        let t1 = e.register(FtBase, (admin.clone(),));
+        let sac = e.register_stellar_asset_contract_v2(admin.clone()).address();
+        let toks = vec![t0, t1, sac];
+        let targets = vec![e.register(Target, ()), e.register(Target, ())];
+        let probe = e.register(Probe, ());
+
+        // funding (set-up only: mock auth, switched off below)
+        e.mock_all_auths();
+        let big: [i128; 3] = [1_000_000_000_000_000_000_000_000_000_000, 5_000, 1i128 << 70];
+        for (ti, t) in toks.iter().enumerate() {
+            let grants: Vec<(&Address, i128)> = vec![(&users[0], 1_000_000), (&users[1], big[ti]), (&relayers[0], 500), (&fwd, 77 * ti as i128)];
+            for (to, amt) in grants {
+                if amt == 0 {
+                    continue;
+                }
+                if ti == 2 {
+                    let r = StellarAssetClient::new(&e, t).try_mint(to, &amt);
+                    if !matches!(r, Ok(Ok(()))) {
+                        return Err(setup_err("SAC mint", r));
+                    }
+                } else {
+                    call(&e, t, "mint", args![&e; to.clone(), amt]).map_err(|er| setup_err("mint", er))?;
+                }
+            }
+        }
+        let mut cands = toks.clone();
+        cands.extend(dummies.iter().cloned());
+        if case.flavour == Flavour::Permissioned {
+            for (i, c) in cands.iter().enumerate() {
+                if case.init_list & (1 << i) != 0 {
+                    call(&e, &fwd, "enable_fee_token", args![&e; c.clone(), manager.clone()]).map_err(|er| setup_err("initial enable_fee_token", er))?;
+                }
+            }
+        }
+        envx::no_auth(&e);
+
+        let holders = vec![
+            users[0].clone(),
+            users[1].clone(),
+            relayers[0].clone(),
+            relayers[1].clone(),
+            stranger.clone(),
+            fwd.clone(),
+            sink.clone(),
+            targets[0].clone(),
+        ];
+        let pairs = vec![
+            (users[0].clone(), fwd.clone()),
+            (users[1].clone(), fwd.clone()),
+            (users[0].clone(), relayers[0].clone()),
+            (users[1].clone(), relayers[1].clone()),
+            (users[0].clone(), stranger.clone()),
+        ];
+        Ok(World { e, fl: case.flavour, fwd, toks, users, relayers, stranger, manager, sink, targets, probe, cands, holders, pairs })
+    }
+
+    /// call log of target `i` (harness contract: its instance entry is read directly)
+    fn read_log(&self, i: usize) -> Result<Log, Violation> {
+        let e = &self.e;
+        let v: SVec<CallRec> = e.as_contract(&self.targets[i], || e.storage().instance().get(&soroban_sdk::symbol_short!("LOG")).unwrap_or(SVec::new(e)));
+        let mut out = vec![];
+        for rec in v.iter() {
+            let f = match ScVal::try_from_val(e, &rec.func.to_val()) {
+                Ok(ScVal::Symbol(s)) => s.0.to_utf8_string_lossy(),
+                other => format!("{other:?}"),
+            };
+            let mut a = vec![];
+            for x in rec.args.iter() {
+                a.push(ScVal::try_from_val(e, &x).map_err(|_| violation("C19/observe/target-log-failed", "argument conversion"))?);
+            }
+            out.push((f, a));
+        }
+        Ok(out)
+    }
+
+    /// Balances and allowances of every holder / pair on all three tokens plus both target logs.
+    /// Library tokens: the library's own getters inside `as_contract` (what their `balance` /
+    /// `allowance` entry points forward to); SAC: its public entry points through the probe.
+    fn dump(&self) -> Result<Dump, Violation> {
+        let e = &self.e;
+        let mut bal: Vec<Vec<i128>> = vec![];
+        let mut alw: Vec<Vec<i128>> = vec![];
+        for t in &self.toks[..2] {
+            let (b, a) = e.as_contract(t, || {
+                let b: Vec<i128> = self.holders.iter().map(|h| Base::balance(e, h)).collect();
+                let a: Vec<i128> = self.pairs.iter().map(|(o, s)| Base::allowance(e, o, s)).collect();
+                (b, a)
+            });
+            bal.push(b);
+            alw.push(a);
+        }
+        let mut toks = SVec::new(e);
+        toks.push_back(self.toks[2].clone());
+        let mut hs = SVec::new(e);
+        for h in &self.holders {
+            hs.push_back(h.clone());
+        }
+        let mut ps: SVec<(Address, Address)> = SVec::new(e);
+        for p in &self.pairs {
+            ps.push_back(p.clone());
+        }
+        let (b, a): (SVec<i128>, SVec<i128>) =
+            envx::call_t(e, &self.probe, "dump", args![e; toks, hs, ps]).map_err(|er| violation("C19/observe/balance-getter-failed", er))?;
+        let (nh, np) = (self.holders.len(), self.pairs.len());
+        ensure!(
+            b.len() as usize == nh && a.len() as usize == np,
+            "C19/observe/balance-getter-failed",
+            "probe returned {} balances / {} allowances",
+            b.len(),
+            a.len()
+        );
+        bal.push(b.iter().collect());
+        alw.push(a.iter().collect());
+        Ok(Dump { bal, alw, logs: [self.read_log(0)?, self.read_log(1)?] })
+    }
+
+    fn cand_index(&self, a: &Address) -> Option<usize> {
+        self.cands.iter().position(|c| c == a)
+    }
+
+    /// raw enumeration slot (selector use only)
+    fn slot(&self, i: u32) -> Option<Address> {
+        let e = &self.e;
+        e.as_contract(&self.fwd, || e.storage().persistent().get::<_, Address>(&FeeAbstractionStorageKey::Token(i)))
+    }
+    fn count(&self) -> u32 {
+        let e = &self.e;
+        e.as_contract(&self.fwd, || e.storage().instance().get::<_, u32>(&FeeAbstractionStorageKey::Count).unwrap_or(0))
+    }
+
+    /// `is_allowed_fee_token` and the `Count / Token(i) / TokenIndex` entries describe exactly the model set.
+    fn check_list(&self, model: &BTreeSet<usize>, hi_water: u32, what: &str) -> R {
+        let e = &self.e;
+        let cands = self.cands.clone();
+        let fwd = self.fwd.clone();
+        #[allow(clippy::type_complexity)]
+        let read = catch_unwind(AssertUnwindSafe(|| {
+            e.as_contract(&fwd, || {
+                let count: u32 = e.storage().instance().get(&FeeAbstractionStorageKey::Count).unwrap_or(0);
+                let upto = count.max(hi_water).saturating_add(2).min(64);
+                let slots: Vec<Option<Address>> = (0..upto).map(|i| e.storage().persistent().get(&FeeAbstractionStorageKey::Token(i))).collect();
+                let idx: Vec<Option<u32>> = cands.iter().map(|c| e.storage().persistent().get(&FeeAbstractionStorageKey::TokenIndex(c.clone()))).collect();
+                (count, slots, idx)
+            })
+        }));
+        let (count, slots, idx) = match read {
+            Ok(x) => x,
+            Err(_) => bail!("C19/allowlist/enumeration-mismatch", "{what}: reading the allow-list entries panicked (model set {:?})", model),
+        };
+        ensure!(
+            count as usize == model.len(),
+            "C19/allowlist/enumeration-mismatch",
+            "{what}: Count = {count}, but {} tokens are allowed and not since removed ({:?})",
+            model.len(),
+            model
+        );
+        let mut seen: BTreeSet<usize> = BTreeSet::new();
+        for (i, s) in slots.iter().enumerate() {
+            if (i as u32) < count {
+                let a = match s {
+                    Some(a) => a,
+                    None => bail!("C19/allowlist/enumeration-mismatch", "{what}: Token({i}) is missing although Count = {count}"),
+                };
+                let ci = match self.cand_index(a) {
+                    Some(ci) => ci,
+                    None => bail!("C19/allowlist/enumeration-mismatch", "{what}: Token({i}) holds an address that was never enabled"),
+                };
+                ensure!(model.contains(&ci), "C19/allowlist/enumeration-mismatch", "{what}: Token({i}) = candidate {ci}, which is not in the allowed set {:?}", model);
+                ensure!(seen.insert(ci), "C19/allowlist/enumeration-mismatch", "{what}: candidate {ci} is enumerated twice (set {:?})", model);
+                ensure!(
+                    idx[ci] == Some(i as u32),
+                    "C19/allowlist/enumeration-mismatch",
+                    "{what}: Token({i}) = candidate {ci} but TokenIndex(candidate {ci}) = {:?} (set {:?})",
+                    idx[ci],
+                    model
+                );
+            } else {
+                ensure!(s.is_none(), "C19/allowlist/enumeration-mismatch", "{what}: stale entry Token({i}) beyond Count = {count}");
+            }
+        }
+        for ci in 0..cands.len() {
+            if !model.contains(&ci) {
+                ensure!(
+                    idx[ci].is_none(),
+                    "C19/allowlist/enumeration-mismatch",
+                    "{what}: stale TokenIndex(candidate {ci}) = {:?}; allowed set is {:?}",
+                    idx[ci],
+                    model
+                );
+            }
+        }
+        // the library's own membership test (it also extends the TTL of both entries of a member)
+        let allowed = match catch_unwind(AssertUnwindSafe(|| e.as_contract(&fwd, || cands.iter().map(|c| is_allowed_fee_token(e, c)).collect::<Vec<bool>>()))) {
+            Ok(x) => x,
+            Err(_) => bail!("C19/allowlist/is_allowed-panicked", "{what}: is_allowed_fee_token panicked (allowed set {:?})", model),
+        };
+        for ci in 0..cands.len() {
+            let want = model.is_empty() || model.contains(&ci);
+            ensure!(
+                allowed[ci] == want,
+                "C19/allowlist/is_allowed-mismatch",
+                "{what}: is_allowed_fee_token(candidate {ci}) = {}, allowed set is {:?}",
+                allowed[ci],
+                model
+            );
+        }
+        Ok(())
+    }
+}
+
+fn sv(e: &Env, v: &[Val]) -> SVec<Val> {
+    let mut out = SVec::new(e);
+    for x in v {
+        out.push_back(*x);
+    }
+    out
+}
+fn to_sc(e: &Env, v: &SVec<Val>) -> Vec<ScVal> {
+    v.iter().map(|x| ScVal::try_from_val(e, &x).unwrap_or(ScVal::Void)).collect()
+}
+
+// ------------------------------------------------------------------ interpreter
+
+#[derive(Default)]
+struct Seen {
+    ok_forward: bool,
+    rej_bounds: bool,
+    rej_tamper: bool,
+    rej_target: bool,
+}
+
+pub fn run_case(case: &Case, ctx: &mut Ctx) -> R {
+    let w = World::setup(case)?;
+    let e = &w.e;
+    let mut allowed: BTreeSet<usize> = (0..N_CAND).filter(|i| case.flavour == Flavour::Permissioned && case.init_list & (1 << i) != 0).collect();
+    let mut hi_water: u32 = allowed.len() as u32;
+    let mut fail = [false, false];
+    let mut seen = Seen::default();
+    let mut d = w.dump()?;
+    w.check_list(&allowed, hi_water, "after set-up")?;
+
+    for (step, op) in case.ops.iter().enumerate() {
+        match op {
+            Op::Advance { k } => {
+                envx::advance(e, *k);
+                d = w.dump()?;
+            }
+            Op::Script { second, fail: f } => {
+                let i = *second as usize;
+                envx::no_auth(e);
+                call(e, &w.targets[i], "script", args![e; *f]).map_err(|er| setup_err("target script", er))?;
+                fail[i] = *f;
+            }
+            Op::Sweep { tok } => {
+                if w.fl != Flavour::Permissioned {
+                    continue;
+                }
+                let t = &w.toks[pick(*tok, N_TOK)];
+                let a = args![e; t.clone(), w.sink.clone(), w.manager.clone()];
+                envx::set_auth(e, &[(&w.manager, &Inv::new(&w.fwd, "sweep_tokens", a.clone()))]);
+                let r = call(e, &w.fwd, "sweep_tokens", a);
+                envx::no_auth(e);
+                ctx.op(r.is_ok());
+                if r.is_ok() {
+                    ctx.class("sweep_ok");
+                }
+                d = w.dump()?;
+            }
+            Op::List { sel, on, by_manager, with_auth } => {
+                if w.fl != Flavour::Permissioned {
+                    continue;
+                }
+                let what = format!("step {step} {op:?}");
+                let members: Vec<usize> = allowed.iter().copied().collect();
+                let non: Vec<usize> = (0..N_CAND).filter(|i| !allowed.contains(i)).collect();
+                let ci = match sel {
+                    ListSel::Cand(s) => Some(pick(*s, N_CAND)),
+                    ListSel::Member(s) => (!members.is_empty()).then(|| members[pick(*s, members.len())]),
+                    ListSel::NonMember(s) => (!non.is_empty()).then(|| non[pick(*s, non.len())]),
+                    ListSel::First => w.slot(0).and_then(|a| w.cand_index(&a)),
+                    ListSel::Last => {
+                        let c = w.count();
+                        if c == 0 {
+                            None
+                        } else {
+                            w.slot(c - 1).and_then(|a| w.cand_index(&a))
+                        }
+                    }
+                };
+                let ci = match ci {
+                    Some(ci) => ci,
+                    None => {
+                        ctx.class("skipped_op");
+                        continue;
+                    }
+                };
+                let who = if *by_manager { &w.manager } else { &w.stranger };
+                let f = if *on { "enable_fee_token" } else { "disable_fee_token" };
+                let a = args![e; w.cands[ci].clone(), who.clone()];
+                // (as_contract is a top-level frame: read the selector slots BEFORE installing the entries)
+                let first_slot = w.slot(0).and_then(|a| w.cand_index(&a));
+                let cnt = w.count();
+                let last_slot = if cnt > 0 { w.slot(cnt - 1).and_then(|a| w.cand_index(&a)) } else { None };
+                if *with_auth {
+                    envx::set_auth(e, &[(who, &Inv::new(&w.fwd, f, a.clone()))]);
+                } else {
+                    envx::no_auth(e);
+                }
+                let r = call(e, &w.fwd, f, a);
+                envx::no_auth(e);
+                ctx.op(r.is_ok());
+                let member = allowed.contains(&ci);
+                let valid = if *on { !member } else { member };
+                if r.is_ok() {
+                    ensure!(
+                        *by_manager && *with_auth,
+                        "C19/allowlist/changed-without-manager",
+                        "{what}: {f} succeeded by_manager={by_manager} with_auth={with_auth}"
+                    );
+                    ensure!(
+                        valid,
+                        "C19/allowlist/invalid-transition-accepted",
+                        "{what}: {f}(candidate {ci}) succeeded although membership was already {member} (set {:?})",
+                        allowed
+                    );
+                    if *on {
+                        allowed.insert(ci);
+                        ctx.class("list_enable_ok");
+                    } else {
+                        allowed.remove(&ci);
+                        ctx.class("list_disable_ok");
+                        if allowed.is_empty() {
+                            ctx.class("list_remove_only");
+                        } else if Some(ci) == last_slot {
+                            ctx.class("list_remove_last");
+                        } else if Some(ci) == first_slot {
+                            ctx.class("list_remove_first");
+                        } else {
+                            ctx.class("list_remove_middle");
+                        }
+                    }
+                    hi_water = hi_water.max(allowed.len() as u32);
+                } else if *by_manager && *with_auth {
+                    // documented: FeeTokenAlreadyAllowed / FeeTokenNotAllowed are the only refusals
+                    ensure!(
+                        !valid,
+                        "C19/allowlist/manager-call-refused",
+                        "{what}: authorized manager call {f}(candidate {ci}) refused although membership = {member}: {:?}",
+                        r
+                    );
+                    ctx.class(if *on { "list_repeat_enable_refused" } else { "list_disable_absent_refused" });
+                } else {
+                    ctx.class("list_unauthorized_refused");
+                }
+                let d2 = w.dump()?;
+                ensure!(d2 == d, "C19/allowlist/side-effect", "{what}: allow-list call changed balances/allowances/target log");
+            }
+            Op::Forward(f) => {
+                step_forward(&w, step, f, &mut d, &allowed, &fail, &mut seen, ctx)?;
+            }
+        }
+        w.check_list(&allowed, hi_water, &format!("after step {step} {op:?}"))?;
+    }
+    if seen.ok_forward && seen.rej_bounds && seen.rej_tamper && seen.rej_target {
+        ctx.nontrivial = true;
+        ctx.class("nontrivial");
+    }
+    Ok(())
+}
+
+#[allow(clippy::too_many_arguments)]
+fn step_forward(w: &World, step: usize, f: &Fwd, d: &mut Dump, allowed: &BTreeSet<usize>, fail: &[bool; 2], seen: &mut Seen, ctx: &mut Ctx) -> R {
+    let e = &w.e;
+    let acc: Vec<usize> = (0..N_TOK).filter(|i| allowed.is_empty() || allowed.contains(i)).collect();
+    let rej: Vec<usize> = (0..N_TOK).filter(|i| !acc.contains(i)).collect();
+    let ti = match &f.tok {
+        TokSel::Accepted(s) if !acc.is_empty() => acc[pick(*s, acc.len())],
+        TokSel::Refused(s) if !rej.is_empty() => rej[pick(*s, rej.len())],
+        TokSel::Any(s) | TokSel::Accepted(s) | TokSel::Refused(s) => pick(*s, N_TOK),
+    };
+    let tok = w.toks[ti].clone();
+    let (user, ui): (Address, Option<usize>) = match &f.user {
+        UserSel::User(s) => {
+            let i = pick(*s, w.users.len());
+            (w.users[i].clone(), Some(i))
+        }
+        UserSel::Forwarder => (w.fwd.clone(), None),
+    };
+    let (relayer, has_role, rel_holder) = match &f.relayer {
+        RelSel::Executor(s) => {
+            let i = pick(*s, w.relayers.len());
+            (w.relayers[i].clone(), true, H_REL0 + i)
+        }
+        RelSel::Stranger => (w.stranger.clone(), false, H_STRANGER),
+    };
+    let user_holder = ui.map(|i| H_USER0 + i).unwrap_or(H_FWD);
+    let now = envx::seq(e);
+    let max: i128 = match &f.max {
+        MaxSel::Abs(x) => *x,
+        MaxSel::BalPlus(k) => d.bal[ti][user_holder].saturating_add(*k as i128),
+    };
+
+    // ---- optional pre-existing allowance (explicitly authorized by the user; plain token call)
+    if let (PreAllow::MaxPlus(k), Some(_)) = (&f.pre, ui) {
+        let amt = max.saturating_add(*k as i128);
+        if amt >= 0 {
+            let a = args![e; user.clone(), w.fwd.clone(), amt, now.saturating_add(100)];
+            envx::set_auth(e, &[(&user, &Inv::new(&tok, "approve", a.clone()))]);
+            let r = call(e, &tok, "approve", a);
+            envx::no_auth(e);
+            r.map_err(|er| setup_err("pre-approve", er))?;
+            *d = w.dump()?;
+        }
+    }
+    let old_allow: i128 = ui.map(|i| d.alw[ti][i]).unwrap_or(0);
+    let fee: i128 = match &f.fee {
+        FeeSel::MaxPlus(k) => max.saturating_add(*k as i128),
+        FeeSel::Abs(x) => *x,
+        FeeSel::Half => max / 2,
+        FeeSel::AllowPlus(k) => old_allow.saturating_add(*k as i128),
+    };
+    let exp: u32 = match &f.exp {
+        ExpSel::Rel(k) => (now as i64 + *k as i64).clamp(0, u32::MAX as i64) as u32,
+        ExpSel::Abs(x) => *x,
+    };
+    let tix = f.tgt.second as usize;
+    let tgt = w.targets[tix].clone();
+    let (x, y) = (f.tgt.x as i128, f.tgt.y as u32);
+    let (fname, targs): (&str, SVec<Val>) = match f.tgt.f {
+        TFn::Ping => ("ping", args![e; x, y]),
+        TFn::Guarded => ("guarded", args![e; user.clone(), x]),
+        TFn::Boom => ("boom", args![e; x, y]),
+        TFn::Missing => ("nope", args![e; x, y]),
+    };
+    let fsym = Symbol::new(e, fname);
+    let call_args: SVec<Val> = args![e; tok.clone(), fee, max, exp, tgt.clone(), fsym.clone(), targs.clone(), user.clone(), relayer.clone()];
+
+    // ---- authorization entries
+    let mut root: Vec<Val> =
+        vec![tok.clone().into_val(e), max.into_val(e), exp.into_val(e), tgt.clone().into_val(e), fsym.clone().into_val(e), targs.clone().into_val(e)];
+    let mut approve_sub = Some(Inv::new(&tok, "approve", args![e; user.clone(), w.fwd.clone(), max, exp]));
+    let mut target_sub = if f.tgt.f == TFn::Guarded { Some(Inv::new(&tgt, fname, targs.clone())) } else { None };
+    let mut user_signer = Some(user.clone());
+    let mut rel_inv = Some(Inv::new(&w.fwd, "forward", call_args.clone()));
+    let mut rel_signer = relayer.clone();
+    let mut extra: Option<(Address, Inv)> = None;
+    match &f.auth {
+        FAuth::Exact => {}
+        FAuth::Surplus => {
+            extra = Some((w.sink.clone(), Inv::new(&tok, "approve", args![e; w.sink.clone(), w.fwd.clone(), 1i128, now])));
+            if target_sub.is_none() {
+                // a target sub-invocation that nobody asks for is harmless
+                target_sub = Some(Inv::new(&tgt, fname, targs.clone()));
+            }
+        }
+        FAuth::TamperUser(field, v) => {
+            let i = field.idx();
+            if *v % 3 == 2 {
+                root.remove(i);
+            } else {
+                let alt = (*v % 3) as usize;
+                root[i] = match field {
+                    Field::Token => w.toks[(ti + 1 + alt) % N_TOK].clone().into_val(e),
+                    Field::Max => (if alt == 0 { max.wrapping_add(1) } else { max.wrapping_sub(1) }).into_val(e),
+                    Field::Exp => (if alt == 0 { exp.wrapping_add(1) } else { exp.wrapping_sub(1) }).into_val(e),
+                    Field::Target => w.targets[1 - tix].clone().into_val(e),
+                    Field::Fn => Symbol::new(e, if fname == "ping" { "pong" } else { "ping" }).into_val(e),
+                    Field::Args => {
+                        let other: SVec<Val> = if alt == 0 {
+                            match f.tgt.f {
+                                TFn::Guarded => args![e; user.clone(), x + 1],
+                                _ => args![e; x, y + 1],
+                            }
+                        } else {
+                            match f.tgt.f {
+                                TFn::Guarded => args![e; user.clone(), x, 0u32],
+                                _ => args![e; x],
+                            }
+                        };
+                        other.into_val(e)
+                    }
+                };
+            }
+        }
+        FAuth::DropUser => user_signer = None,
+        FAuth::SwapUser => {
+            let other = match ui {
+                Some(i) => w.users[1 - i].clone(),
+                None => w.users[0].clone(),
+            };
+            user_signer = Some(other);
+        }
+        FAuth::DropApprove => approve_sub = None,
+        FAuth::TamperApprove(k) => {
+            let a = match k % 4 {
+                0 => args![e; user.clone(), w.fwd.clone(), max.wrapping_add(1), exp],
+                1 => args![e; user.clone(), w.fwd.clone(), max.wrapping_sub(1), exp],
+                2 => args![e; user.clone(), w.fwd.clone(), max, exp.wrapping_add(1)],
+                _ => args![e; user.clone(), relayer.clone(), max, exp],
+            };
+            approve_sub = Some(Inv::new(&tok, "approve", a));
+        }
+        FAuth::DropTargetSub => target_sub = None,
+        FAuth::TamperTargetSub => {
+            if f.tgt.f == TFn::Guarded {
+                target_sub = Some(Inv::new(&tgt, fname, args![e; user.clone(), x + 1]));
+            }
+        }
+        FAuth::DropRelayer => rel_inv = None,
+        FAuth::TamperRelayer(k) => {
+            let other_user = match ui {
+                Some(i) => w.users[1 - i].clone(),
+                None => w.users[0].clone(),
+            };
+            let a: SVec<Val> = match k % 3 {
+                0 => args![e; tok.clone(), fee.wrapping_add(1), max, exp, tgt.clone(), fsym.clone(), targs.clone(), user.clone(), relayer.clone()],
+                1 => args![e; tok.clone(), fee, max, exp, tgt.clone(), fsym.clone(), targs.clone(), other_user, relayer.clone()],
+                _ => args![e; tok.clone(), fee, max, exp, tgt.clone(), fsym.clone(), targs.clone(), user.clone(), w.sink.clone()],
+            };
+            rel_inv = Some(Inv::new(&w.fwd, "forward", a));
+        }
+        FAuth::SwapRelayer => rel_signer = w.sink.clone(),
+    }
+    let mut user_inv = Inv::new(&w.fwd, "forward", sv(e, &root));
+    if let Some(s) = approve_sub {
+        user_inv = user_inv.with_sub(s);
+    }
+    if let Some(s) = target_sub {
+        user_inv = user_inv.with_sub(s);
+    }
+    let mut entries: Vec<(Address, Inv)> = vec![];
+    if let Some(s) = user_signer {
+        entries.push((s, user_inv));
+    }
+    if let Some(i) = rel_inv {
+        entries.push((rel_signer, i));
+    }
+    if let Some(x) = extra {
+        entries.push(x);
+    }
+
+    // ---- model: reasons why this forward MUST be refused (written from the property statement)
+    let approve_needed = w.fl.eager() || old_allow < max;
+    let mut reasons: Vec<String> = vec![];
+    if ui.is_none() {
+        reasons.push("user-is-forwarder".into());
+    }
+    match &f.auth {
+        FAuth::TamperUser(field, _) => reasons.push(format!("tampered-auth:{}", field.name())),
+        FAuth::DropUser => reasons.push("unauthorized:no-user-entry".into()),
+        FAuth::SwapUser => reasons.push("unauthorized:foreign-user-entry".into()),
+        FAuth::DropApprove if approve_needed => reasons.push("unauthorized:approve-sub-missing".into()),
+        FAuth::TamperApprove(_) if approve_needed => reasons.push("unauthorized:approve-sub-tampered".into()),
+        FAuth::DropTargetSub if f.tgt.f == TFn::Guarded => reasons.push("unauthorized:target-sub-missing".into()),
+        FAuth::TamperTargetSub if f.tgt.f == TFn::Guarded => reasons.push("unauthorized:target-sub-tampered".into()),
+        FAuth::DropRelayer => reasons.push("unauthorized:no-relayer-entry".into()),
+        FAuth::TamperRelayer(_) => reasons.push("unauthorized:relayer-entry-tampered".into()),
+        FAuth::SwapRelayer => reasons.push("unauthorized:foreign-relayer-entry".into()),
+        _ => {}
+    }
+    if w.fl == Flavour::Permissioned && !has_role {
+        reasons.push("relayer-not-executor".into());
+    }
+    if fee <= 0 {
+        reasons.push("nonpositive-fee".into());
+    } else if fee > max {
+        reasons.push("fee-above-max".into());
+    }
+    if exp < now {
+        reasons.push("expired".into());
+    }
+    if !(allowed.is_empty() || allowed.contains(&ti)) {
+        reasons.push("disallowed-token".into());
+    }
+    let target_fails = matches!(f.tgt.f, TFn::Boom | TFn::Missing) || fail[tix];
+    if target_fails {
+        reasons.push("failing-target".into());
+    }
+
+    // ---- the call
+    let what = format!(
+        "step {step} [{:?}] forward(token {ti}, fee {fee}, max {max}, exp {exp} (now {now}), target {tix}.{fname}, user {:?}, relayer {:?}) auth {:?}, old allowance {old_allow}, allowed set {:?}",
+        w.fl, f.user, f.relayer, f.auth, allowed
+    );
+    let refs: Vec<(&Address, &Inv)> = entries.iter().map(|(a, i)| (a, i)).collect();
+    envx::set_auth(e, &refs);
+    let r = call(e, &w.fwd, "forward", call_args.clone());
+    envx::no_auth(e);
+    ctx.op(r.is_ok());
+    let d2 = w.dump()?;
+
+    if r.is_ok() {
+        if let Some(first) = reasons.first() {
+            let sig = match first.as_str() {
+                "fee-above-max" => "C19/forward/fee-above-max-accepted".to_string(),
+                "nonpositive-fee" => "C19/forward/nonpositive-fee-accepted".to_string(),
+                "expired" => "C19/forward/expired-authorization-accepted".to_string(),
+                "disallowed-token" => "C19/forward/disallowed-token-accepted".to_string(),
+                "failing-target" => "C19/forward/failed-target-call-accepted".to_string(),
+                "relayer-not-executor" => "C19/forward/relayer-without-executor-role-accepted".to_string(),
+                "user-is-forwarder" => "C19/forward/user-is-forwarder-accepted".to_string(),
+                s if s.starts_with("tampered-auth:") => format!("C19/forward/tampered-auth-accepted:{}", &s["tampered-auth:".len()..]),
+                s => format!("C19/forward/unauthorized-accepted:{}", s.trim_start_matches("unauthorized:")),
+            };
+            bail!(sig, "{what}: SUCCEEDED although it must be refused: {:?}", reasons);
+        }
+        // effects: exactly the fee moves from the user to the recipient, nothing else
+        let rcpt = if w.fl.eager() { rel_holder } else { H_FWD };
+        let mut want = d.clone();
+        want.bal[ti][user_holder] = d.bal[ti][user_holder].wrapping_sub(fee);
+        want.bal[ti][rcpt] = want.bal[ti][rcpt].wrapping_add(fee);
+        let residual = if w.fl.eager() { max - fee } else { old_allow.max(max) - fee };
+        if let Some(i) = ui {
+            want.alw[ti][i] = residual;
+        }
+        want.logs[tix].push((fname.to_string(), to_sc(e, &targs)));
+        ensure!(
+            d2.bal[ti][user_holder] == want.bal[ti][user_holder],
+            "C19/forward/charged-not-fee",
+            "{what}: user balance {} -> {}, stated fee {fee}",
+            d.bal[ti][user_holder],
+            d2.bal[ti][user_holder]
+        );
+        ensure!(
+            d2.bal[ti][rcpt] == want.bal[ti][rcpt],
+            "C19/forward/recipient-credit-wrong",
+            "{what}: fee recipient balance {} -> {}, stated fee {fee}",
+            d.bal[ti][rcpt],
+            d2.bal[ti][rcpt]
+        );
+        ensure!(d2.bal == want.bal, "C19/forward/other-balance-changed", "{what}: balances {:?} -> {:?}, expected {:?}", d.bal, d2.bal, want.bal);
+        ensure!(
+            d2.logs == want.logs,
+            "C19/forward/target-call-mismatch",
+            "{what}: target logs {:?} -> {:?}, expected exactly one more record ({fname}, args)",
+            d.logs.iter().map(|l| l.len()).collect::<Vec<_>>(),
+            d2.logs
+        );
+        if let Some(i) = ui {
+            ensure!(
+                d2.alw[ti][i] == residual,
+                if w.fl.eager() { "C19/forward/residual-allowance:eager" } else { "C19/forward/residual-allowance:lazy" },
+                "{what}: allowance(user, forwarder) {} -> {}, documented residual {residual}",
+                d.alw[ti][i],
+                d2.alw[ti][i]
+            );
+        }
+        ensure!(d2.alw == want.alw, "C19/forward/other-allowance-changed", "{what}: allowances {:?} -> {:?}, expected {:?}", d.alw, d2.alw, want.alw);
+
+        seen.ok_forward = true;
+        ctx.class("forward_ok");
+        ctx.class(if ti == 2 { "forward_ok:sac" } else { "forward_ok:lib-token" });
+        if fee == max {
+            ctx.class("forward_ok:fee==max");
+        }
+        if fee == 1 {
+            ctx.class("forward_ok:fee==1");
+        }
+        if exp == now {
+            ctx.class("forward_ok:exp==now");
+        }
+        if !w.fl.eager() {
+            ctx.class(if old_allow < max {
+                "forward_ok:lazy-approved"
+            } else if old_allow == max {
+                "forward_ok:lazy-allowance==max"
+            } else {
+                "forward_ok:lazy-allowance>max"
+            });
+        } else if old_allow > 0 {
+            ctx.class("forward_ok:eager-overwrote-allowance");
+        }
+        if !approve_needed && matches!(f.auth, FAuth::DropApprove | FAuth::TamperApprove(_)) {
+            ctx.class("forward_ok:lazy-without-approve-sub");
+        }
+        if f.tgt.f == TFn::Guarded {
+            ctx.class("forward_ok:guarded-target");
+        }
+        if !allowed.is_empty() {
+            ctx.class("forward_ok:listed-token");
+        }
+        if !has_role {
+            ctx.class("forward_ok:permissionless-stranger-relayer");
+        }
+    } else {
+        ensure!(d2 == *d, "C19/forward/failed-call-left-trace", "{what}: refused ({:?}) but state changed:\n before {:?}\n after  {:?}", r, d, d2);
+        if reasons.is_empty() {
+            // documented flow (module + example docs): exact authorizations, valid bounds, live expiration,
+            // acceptable token, sufficient balance => the forward executes
+            let plain = d.bal[ti][user_holder] >= fee && (exp as u64) <= now as u64 + 1000;
+            if plain && f.auth == FAuth::Exact {
+                // diagnosis: does the forwarder accept a user entry that does not cover one of the six arguments?
+                for field in [Field::Token, Field::Max, Field::Exp, Field::Target, Field::Fn, Field::Args] {
+                    let mut short = root.clone();
+                    short.remove(field.idx());
+                    let mut inv = Inv::new(&w.fwd, "forward", sv(e, &short)).with_sub(Inv::new(&tok, "approve", args![e; user.clone(), w.fwd.clone(), max, exp]));
+                    if f.tgt.f == TFn::Guarded {
+                        inv = inv.with_sub(Inv::new(&tgt, fname, targs.clone()));
+                    }
+                    let rinv = Inv::new(&w.fwd, "forward", call_args.clone());
+                    envx::set_auth(e, &[(&user, &inv), (&relayer, &rinv)]);
+                    let r2 = call(e, &w.fwd, "forward", call_args.clone());
+                    envx::no_auth(e);
+                    ensure!(
+                        r2.is_err(),
+                        format!("C19/forward/tampered-auth-accepted:{}", field.name()),
+                        "{what}: the exactly authorized forward was refused ({:?}), but the same forward SUCCEEDED with a user entry whose argument tuple does not cover `{}`",
+                        r,
+                        field.name()
+                    );
+                }
+            }
+            ensure!(
+                !plain,
+                "C19/forward/exact-authorized-forward-refused",
+                "{what}: every documented precondition holds (user balance {}), but the forward was refused: {:?}",
+                d.bal[ti][user_holder],
+                r
+            );
+            ctx.class("refused_by_token"); // insufficient balance / token-side live_until limits
+        } else {
+            if reasons.len() == 1 {
+                let r0 = reasons[0].as_str();
+                ctx.class(&format!("rejected_only:{r0}"));
+                if r0 == "fee-above-max" || r0 == "nonpositive-fee" {
+                    seen.rej_bounds = true;
+                    if !w.fl.eager() && old_allow >= fee && fee > max {
+                        ctx.class("rejected_only:fee-above-max:lazy-allowance-covers-fee");
+                    }
+                }
+                if r0 == "expired" && !approve_needed {
+                    ctx.class("rejected_only:expired:lazy-no-approve");
+                }
+                if r0.starts_with("tampered-auth:") {
+                    seen.rej_tamper = true;
+                }
+                if r0 == "failing-target" {
+                    seen.rej_target = true;
+                }
+            } else {
+                ctx.class("rejected_multi_reason");
+            }
+        }
+    }
+    *d = d2;
+    Ok(())
+}
 
 pub fn property() -> Property {
-    Property { id: "C19", rule: "", subs: vec![], floors: vec![], assumptions: vec![] }
+    Property {
+        id: "C19",
+        rule: "case = (forwarder flavour, start ledger, initial allow-list, history of 10..33 (thorough 49) ops: forwards with state-relative fee/max/expiration/pre-allowance \
+               selectors over 3 fee tokens (2 library tokens + SAC), 2 users, 3 relayers, 2 targets and 12 explicit-authorization modes; allow-list enable/disable by \
+               manager/stranger; sweep; target scripting; ledger advance). non-trivial = >=1 successful forward AND >=1 forward refused solely for fee bounds AND >=1 refused \
+               solely for a tampered user authorization AND >=1 refused solely because the target call fails. distinct = distinct serialised case",
+        subs: vec![
+            gen_sub::<Case>("permissionless", 600, 10000, strat_permissionless, run_case),
+            gen_sub::<Case>("permissioned", 900, 15000, strat_permissioned, run_case),
+        ],
+        // <= 1/10 of the minimum measured over seeds 0..5 (quick); thorough = 10 x quick
+        floors: vec![
+            ("nontrivial", 40, 400),
+            ("forward_ok", 600, 6000),
+            ("forward_ok:sac", 200, 2000),
+            ("forward_ok:lazy-allowance>max", 60, 600),
+            ("forward_ok:lazy-allowance==max", 40, 400),
+            ("forward_ok:lazy-approved", 170, 1700),
+            ("forward_ok:eager-overwrote-allowance", 200, 2000),
+            ("forward_ok:guarded-target", 200, 2000),
+            ("rejected_only:fee-above-max", 120, 1200),
+            ("rejected_only:fee-above-max:lazy-allowance-covers-fee", 14, 140),
+            ("rejected_only:nonpositive-fee", 130, 1300),
+            ("rejected_only:expired", 90, 900),
+            ("rejected_only:expired:lazy-no-approve", 17, 170),
+            ("rejected_only:failing-target", 130, 1300),
+            ("rejected_only:disallowed-token", 60, 600),
+            ("rejected_only:relayer-not-executor", 28, 280),
+            ("rejected_only:user-is-forwarder", 25, 250),
+            ("rejected_only:tampered-auth:token", 22, 220),
+            ("rejected_only:tampered-auth:max-fee", 22, 220),
+            ("rejected_only:tampered-auth:expiration", 22, 220),
+            ("rejected_only:tampered-auth:target", 22, 220),
+            ("rejected_only:tampered-auth:fn", 22, 220),
+            ("rejected_only:tampered-auth:args", 22, 220),
+            ("rejected_only:unauthorized:approve-sub-missing", 27, 270),
+            ("rejected_only:unauthorized:no-user-entry", 13, 130),
+            ("rejected_only:unauthorized:no-relayer-entry", 23, 230),
+            ("rejected_only:unauthorized:target-sub-missing", 7, 70),
+            ("list_enable_ok", 70, 700),
+            ("list_disable_ok", 77, 770),
+            ("list_remove_first", 22, 220),
+            ("list_remove_last", 21, 210),
+            ("list_remove_only", 22, 220),
+            ("list_remove_middle", 6, 60),
+            ("list_repeat_enable_refused", 79, 790),
+        ],
+        assumptions: vec![
+            "Soroban native test host (auth manager, rollback of failed invocations) is trusted; plain actors are accept-all account contracts, so 'X authorizes' == 'an explicit entry of X with exactly this invocation tree is attached'",
+            "fee tokens (library Base token, Stellar Asset Contract) are trusted collaborators here (C02 checks the library token); balances/allowances are observed through their public balance/allowance entry points",
+            "an `approve` sub-invocation that the lazy strategy does not use (allowance >= max) is not required; a forward without it may succeed",
+        ],
+    }
 }
